@@ -129,6 +129,9 @@ func oracleC02(c *oracleCtx) {
 				c.bump("steered-away")
 				continue
 			}
+			if k%3 == 2 && !strings.ContainsAny(src, "`") { // the same layout with Windows line endings (CR LF is one line terminator; not inside template literals, whose value it would change)
+				src = strings.ReplaceAll(src, "\n", "\r\n")
+			}
 			got := c02CheckText(c, src, want, "gen")
 			c.bump("texts")
 			if got == "" {
